@@ -138,6 +138,25 @@ def run_case(kind, params):
         except Exception as e:
             msgs.append(f"get_buf_count / allocate_crop_bufs raised {type(e).__name__}: {e}")
         return msgs
+    if kind == "wrappers":
+        from libertem_blobfinder.common import correlation as cc
+        rng = np.random.default_rng(params["seed"])
+        shape = tuple(params["shape"])
+        frame = impl.noise_frame(rng, shape, "disks")
+        pattern = impl.pattern_from(params["pattern"])
+        peaks = np.asarray(params["peaks"], dtype=np.int64)
+        us = params["upsample"]
+        msgs = []
+        try:
+            base = impl.run_fast(frame, pattern, peaks, b=len(peaks), upsample=us)      # one block, low level
+            basef = impl.run_full(frame, pattern, peaks, b=len(peaks), upsample=us)
+            for nm, fn, ref in (("process_frames_fast", cc.process_frames_fast, base), ("process_frames_full", cc.process_frames_full, basef)):
+                r = fn(pattern, frame[np.newaxis], peaks, upsample=us)
+                got = tuple(np.asarray(a)[0] for a in r)
+                msgs += compare_outputs(ref, got, range(len(peaks)), range(len(peaks)), f"{nm} ({len(peaks)} peaks) vs one block", us)
+        except Exception as e:
+            msgs.append(f"implementation raised {type(e).__name__}: {e}")
+        return msgs[:6]
     rng = np.random.default_rng(params["seed"])
     shape = tuple(params["shape"])
     frame = impl.noise_frame(rng, shape, params["frame_kind"])
@@ -222,6 +241,17 @@ def search(ctx, boost=1, focus=()):
         msgs = run_case("invariance", params)
         ctx.oracle_case("invariance", params, msgs, nontrivial=len(params["peaks"]) > 1)
         ctx.count("oracle_" + params["pipeline"] + ("_us" if params["upsample"] else ""))
+    # the batch helpers with more crops than one block of their own buffers holds (large pattern, many peaks in no particular order)
+    for k in range(2 * boost):
+        r_ = float(rng.integers(13, 17))
+        q = {"pattern": {"kind": ("radial_gradient", "circular")[k % 2], "radius": r_, "search": 2 * r_}, "seed": int(rng.integers(1 << 30)),
+             "shape": [int(rng.integers(90, 120)), int(rng.integers(90, 120))], "upsample": [False, 4][k % 2]}
+        c = int(np.ceil(q["pattern"]["search"]))
+        npk = 2 ** 19 // ((2 * c) ** 2 * 4) + int(rng.integers(3, 9))
+        q["peaks"] = np.stack([rng.integers(0, q["shape"][0], npk), rng.integers(0, q["shape"][1], npk)], axis=1).tolist()
+        msgs = run_case("wrappers", q)
+        ctx.oracle_case("wrappers", q, msgs, nontrivial=True)
+        ctx.count("wrappers_many_blocks")
     for k in range((400 if ctx.tier == "thorough" else 120) * boost):
         c = int(rng.integers(1, 40))
         dt = ("uint8", "int16", "float32", "float64", "complex128")[k % 5]
